@@ -2,6 +2,7 @@ import Astral.Model.Proto
 import Astral.Model.Julian
 import Astral.Model.Sun
 import Astral.Model.Moon
+import Astral.Model.Geocoder
 import Std.Data.HashMap
 open Astral Astral.Proto
 
@@ -191,6 +192,147 @@ def handleMoon (zs : Zones) (fn : String) (a : Array String) : Option String := 
   | "phase" => let d ← getI a[0]!; pure (tokF (phase (α := F) d))
   | _ => none
 
+/-- `F<hex>` | `S<cps>` | `O` -/
+def getArg (t : String) : Option (Arg F) :=
+  if t == "O" then some .other
+  else if t.startsWith "F" then (getF t).map .num
+  else if t.startsWith "S" then (getS t).map .str
+  else none
+
+def getLimit (t : String) : Option (Option F) :=
+  if t == "N" then some none else (getF t).map some
+
+/-- `one:<arg>` | `pair:<arg>;<arg>` -/
+def getElevArg (t : String) : Option (ElevArg F) :=
+  if t.startsWith "one:" then (getArg (t.drop 4).toString).map .one
+  else if t.startsWith "pair:" then
+    match (t.drop 5).toString.splitOn ";" with
+    | [x, y] => do let a ← getArg x; let b ← getArg y; pure (.pair a b)
+    | _ => none
+  else none
+
+def tokElev : Elev F → String
+  | .flt h => s!"I0 {tokF h} {tokF 0.0}"
+  | .tup a b => s!"I1 {tokF a} {tokF b}"
+
+def tokRec (r : Rec F) : String :=
+  s!"{tokS r.name} {tokS r.region} {tokS r.tz} {tokF r.lat} {tokF r.lon}"
+
+def tokGroup (g : Group F) : String :=
+  let parts := g.map (fun (k, l) =>
+    s!"{tokS k} {tokI l.length} " ++ " ".intercalate (l.map tokRec))
+  s!"G {tokI g.length} " ++ " ".intercalate parts
+
+def getItem (t : String) : Option (Item F) :=
+  if t.startsWith "L:" then (getS (t.drop 2).toString).map .line
+  else if t.startsWith "F:" then
+    let body := (t.drop 2).toString
+    if body.isEmpty then some (.fields [])
+    else ((body.splitOn "|").mapM getS).map .fields
+  else if t.startsWith "T:" then
+    match (t.drop 2).toString.splitOn "|" with
+    | [n, r, z, la, lo] => do
+      let n ← getS n; let r ← getS r; let z ← getS z
+      let la ← getArg la; let lo ← getArg lo
+      pure (.tuple n r z la lo)
+    | _ => none
+  else none
+
+def optErr : Option Err → String
+  | none => "N"
+  | some e => tokE e
+
+structure St where
+  zones : Zones := {}
+  dbs : Std.HashMap Int (Db F) := {}
+
+def handleGeo (st : St) (fn : String) (a : Array String) : Option (St × String) := do
+  match fn with
+  | "dms_to_float" =>
+      let x ← getArg a[0]!; let l ← getLimit a[1]!
+      pure (st, exc tokF (dmsToFloat x l))
+  | "obs_run" =>
+      -- obs_run <lat> <lon> <elev> I<k> (<field> <val>)*k
+      let la ← getArg a[0]!; let lo ← getArg a[1]!; let el ← getElevArg a[2]!
+      let k ← getI a[3]!
+      match Obs.mk? la lo el with
+      | .error e => pure (st, tokE e)
+      | .ok o0 =>
+        let mut o := o0
+        let mut outs : List String := []
+        for i in [0:k.toNat] do
+          let f := a[4 + 2 * i]!
+          let v := a[5 + 2 * i]!
+          let (fld, val) ← (match f with
+            | "lat" => (getArg v).map (fun x => (ObsField.latitude, ObsVal.coord x))
+            | "lon" => (getArg v).map (fun x => (ObsField.longitude, ObsVal.coord x))
+            | "elev" => (getElevArg v).map (fun x => (ObsField.elevation, ObsVal.elev x))
+            | _ => none)
+          match o.set fld val with
+          | .ok o' => o := o'; outs := outs ++ ["N"]
+          | .error e => outs := outs ++ [tokE e]
+        pure (st, s!"{tokF o.lat} {tokF o.lon} {tokElev o.elev} " ++ " ".intercalate outs)
+  | "coords_run" =>
+      -- coords_run <lat> <lon> I<k> (<field> <arg>)*k  (LocationInfo / Location setters)
+      let la ← getArg a[0]!; let lo ← getArg a[1]!
+      let k ← getI a[2]!
+      match (do let x ← dmsToFloat la (some 90.0); let y ← dmsToFloat lo (some 180.0);
+                pure (⟨x, y⟩ : Coords F)) with
+      | .error e => pure (st, tokE e)
+      | .ok c0 =>
+        let mut c := c0
+        let mut outs : List String := []
+        for i in [0:k.toNat] do
+          let f := a[3 + 2 * i]!
+          let v ← getArg a[4 + 2 * i]!
+          let fld ← (match f with
+            | "lat" => some CoordField.latitude | "lon" => some CoordField.longitude | _ => none)
+          match c.set fld v with
+          | .ok c' => c := c'; outs := outs ++ ["N"]
+          | .error e => outs := outs ++ [tokE e]
+        pure (st, s!"{tokF c.lat} {tokF c.lon} " ++ " ".intercalate outs)
+  | "db_new" =>
+      let h ← getI a[0]!
+      pure ({ st with dbs := st.dbs.insert h [] }, "ok")
+  | "db_add_text" =>
+      let h ← getI a[0]!; let s ← getS a[1]!
+      let db ← st.dbs.get? h
+      let (db', e) := addStr db s
+      pure ({ st with dbs := st.dbs.insert h db' }, optErr e)
+  | "db_add_list" =>
+      let h ← getI a[0]!; let k ← getI a[1]!
+      let db ← st.dbs.get? h
+      let items ← (List.range k.toNat).mapM (fun i => getItem a[2 + i]!)
+      let (db', e) := addItems db items
+      pure ({ st with dbs := st.dbs.insert h db' }, optErr e)
+  | "db_lookup" =>
+      let h ← getI a[0]!; let s ← getS a[1]!
+      let db ← st.dbs.get? h
+      pure (st, exc (fun r => match r with
+        | LookupResult.group g => tokGroup g
+        | LookupResult.loc r => "R " ++ tokRec r) (lookup s db))
+  | "db_group" =>
+      let h ← getI a[0]!; let s ← getS a[1]!
+      let db ← st.dbs.get? h
+      pure (st, exc tokGroup (groupLookup s db))
+  | "db_lookup_in_group" =>
+      let h ← getI a[0]!; let g ← getS a[1]!; let s ← getS a[2]!
+      let db ← st.dbs.get? h
+      pure (st, exc (fun r => "R " ++ tokRec r) (do
+        let grp ← groupLookup g db
+        lookupInGroup s grp))
+  | "db_all" =>
+      let h ← getI a[0]!
+      let db ← st.dbs.get? h
+      let l := allLocations db
+      pure (st, s!"{tokI l.length} " ++ " ".intercalate (l.map tokRec))
+  | "db_keys" =>
+      let h ← getI a[0]!
+      let db ← st.dbs.get? h
+      pure (st, " ".intercalate (db.map (fun (k, g) => s!"{tokS k} {tokI g.length}")))
+  | "sanitize" => let s ← getS a[0]!; pure (st, tokS (sanitize s))
+  | _ => none
+
 def handle (fn : String) (a : Array String) : Option String := do
   match fn with
   | "julianday_date" =>
@@ -228,29 +370,32 @@ def handle (fn : String) (a : Array String) : Option String := do
   | "weekday" => let d ← getI a[0]!; pure (tokI (weekday d))
   | _ => none
 
-def processLine (zs : Zones) (line : String) : Zones × String :=
+def processLine (st : St) (line : String) : St × String :=
   let toks := (line.trimAscii.toString.splitOn " ").filter (· ≠ "")
   match toks with
-  | [] => (zs, "")
+  | [] => (st, "")
   | fn :: args =>
     let a := args.toArray
     -- pad so that a[i]! on a short line yields a token no getter accepts
     let a := a ++ Array.replicate 16 "?"
     if fn == "zone" then
       match parseZone a with
-      | some (id, tz) => (zs.insert id tz, "ok")
-      | none => (zs, tokE .badRequest)
+      | some (id, tz) => ({ st with zones := st.zones.insert id tz }, "ok")
+      | none => (st, tokE .badRequest)
     else
-      match (handle fn a <|> handleSun zs fn a <|> handleMoon zs fn a) with
-      | some r => (zs, r)
-      | none => (zs, tokE .badRequest)
+      match (handle fn a <|> handleSun st.zones fn a <|> handleMoon st.zones fn a) with
+      | some r => (st, r)
+      | none =>
+        match handleGeo st fn a with
+        | some (st', r) => (st', r)
+        | none => (st, tokE .badRequest)
 
-partial def loop (h : IO.FS.Stream) (out : IO.FS.Stream) (zs : Zones) : IO Unit := do
+partial def loop (h : IO.FS.Stream) (out : IO.FS.Stream) (st : St) : IO Unit := do
   let line ← h.getLine
   if line.isEmpty then return ()
-  let (zs, r) := processLine zs line
+  let (st, r) := processLine st line
   out.putStrLn r
-  loop h out zs
+  loop h out st
 
 def main : IO Unit := do
   let stdin ← IO.getStdin
